@@ -475,6 +475,33 @@ func checkC16(c *Ctx) {
 		c.Check(goAt == nil, "R5", "dependency updates applied in order", pos, "Subscribe/Unsubscribe are called on the dependency stream's goroutine", "Subscribe/Unsubscribe run on a goroutine per dependency update: a later update overtakes an earlier one that is parked on the full queue, its Unsubscribe/Subscribe is a no-op against a set the parked update changes afterwards - the subscribed set ends up different from the dependency set for good")
 		c.Check(ok, "R5", "dependency hook symmetric", sd.Pos(), "Subscribe and Unsubscribe on both the config and the endpoint client", fmt.Sprintf("the dependency hook is not symmetric over the two clients (%v): a dependency change is tracked on one stream only", counts))
 	}
+	// the dependency stream's updates reach the hook as they are: both lists of a response, unfiltered
+	if drun := p.Func(configPkg, "(*dependencyDiscoveryClient).run"); drun == nil {
+		c.Unresolved("R5", "(*dependencyDiscoveryClient).run")
+	} else {
+		nh := 0
+		for _, hf := range append([]*ssa.Function{drun}, staticCalleesDeep(drun, 1)...) {
+			if hf.Blocks == nil || !isModFn(hf) {
+				continue
+			}
+			eachInstr(hf, func(_ *ssa.BasicBlock, _ int, in ssa.Instruction) {
+				cc := callOf(in)
+				if cc == nil || cc.IsInvoke() || calleeFn(cc) != nil || len(cc.Args) != 2 {
+					return
+				}
+				if f, _ := loadedField(cc.Value); f == nil || f.Name() != "hook" {
+					return
+				}
+				nh++
+				fa, _ := loadedField(cc.Args[0])
+				fr, _ := loadedField(cc.Args[1])
+				c.Check(fa != nil && fa.Name() == "Added" && fr != nil && fr.Name() == "Removed", "R5", fmt.Sprintf("dependency updates reach the hook unfiltered (#%d)", nh), in.Pos(), "hook(resp.Added, resp.Removed)", "the dependency client passes something other than the response's own Added and Removed lists to the hook: a filter that remembers what it has reported (and never forgets what was removed) swallows the re-addition of a dependency - it is in the dependency set but never subscribed again")
+			})
+		}
+		if nh == 0 {
+			c.Fail("R5", "dependency updates reach the hook unfiltered", drun.Pos(), "the dependency stream loop never calls the hook")
+		}
+	}
 	c.Expect("R5", 3)
 	checkSenderWokenByReceiver(c, "R6")
 	c.Rule("R7", "no lock of the discovery clients is acquired while it is already held: a second RLock behind a waiting writer (Subscribe/Unsubscribe) never returns, and neither does the writer")
